@@ -394,6 +394,114 @@ theorem column_typed_partial (D : Decls) (Γ0 : List (String × CT)) (s : ChainS
           simp [typeOf, htyped, ctOf, h0, h1, h2]
         simp [colOk, stripCast, htyped, hcastty, hdecl, ctOf, htree, hn, Term.str, hconst, h0]
 
+/-- **C10.col_typed_partial** — end to end for one column: for every consistent set of
+declarations, every element type of the event collection and every chain of calls / indexings /
+loops the translator accepts, the loops type check from the event-collection element outwards
+and the column (declaration, cast, assignment or `push_back`) is well typed and carries the
+declared (tree) type. Hypotheses as in `chain_typed_partial` and `column_typed_partial`. -/
+theorem col_typed_partial (D : Decls) (rootElem : Term) (steps : List Step) (out : ColOut)
+    (hc : D.consistent = true) (hrun : runCol D.reg rootElem steps .plain = .ok out)
+    (hwarn : ∀ w ∈ out.warns, w ∈ D.warned) (hnoat : ∀ w ∈ D.warned, w.2 ≠ "at")
+    (hshallow : ∀ d ∈ out.iterDepths, d ≤ 1) (hconst : out.valTy.isConst = false)
+    (hcast : ∀ tt, out.valTy.tree = some tt → tt ≠ out.valTy.name →
+      out.valTy.depth = 0 ∧ (out.valTy.name ∈ arithAll ∨ D.isEnum out.valTy.name = true) ∧ tt ∈ arithAll) :
+    ∃ Γ, loopsOk D [(loopVar 0, ctOf rootElem)] out.loops = some Γ ∧
+      colOk D Γ out.decl out.isSeq out.rhs = true := by
+  unfold runCol at hrun
+  simp only at hrun
+  cases hch : runChain D.reg steps
+      { gamma := [(loopVar 0, ctOf rootElem)], loops := [], nvar := 1, e := .var (loopVar 0),
+        ty := .value rootElem, warns := [], iterDepths := [] } with
+  | error e => simp [hch] at hrun
+  | ok s =>
+    simp only [hch] at hrun
+    obtain ⟨t, hty, hl, hw, hd, hv⟩ := finishCol_plain_fields s out hrun
+    have hinv := runChain_inv D [(loopVar 0, ctOf rootElem)] hc hnoat steps _ s hch (initial_inv D rootElem)
+      (by rw [← hw]; exact hwarn) (by rw [← hd]; exact hshallow)
+    have hterm : s.ty.term = out.valTy := by rw [hty, hv]; rfl
+    have := column_typed_partial D _ s out hinv hrun (by rw [hterm]; exact hconst) (by rw [hterm]; exact hcast)
+    exact ⟨s.gamma, by rw [hl]; exact hinv.loops, this.1⟩
+
+/-- **C10.column_addOne_typed** (beyond plain columns) — `value + 1` on a declared arithmetic
+value keeps the value's type, its declared tree type and the cast. -/
+theorem column_addOne_typed (D : Decls) (Γ0 : List (String × CT)) (s : ChainSt) (out : ColOut)
+    (hinv : ChainInv D Γ0 s) (hfin : finishCol s .addOne = .ok out)
+    (hconst : s.ty.term.isConst = false) (hdepth : s.ty.term.depth = 0)
+    (htree : ∀ tt, s.ty.term.tree = some tt → tt ∈ arithAll) :
+    colOk D s.gamma out.decl out.isSeq out.rhs = true := by
+  have htyped := hinv.typed
+  unfold finishCol at hfin
+  cases hty : s.ty with
+  | coll a b => simp [hty] at hfin
+  | value t =>
+    rw [hty] at htyped hconst hdepth htree
+    simp only [RTy.term] at htyped hconst hdepth htree
+    simp only [hty] at hfin
+    by_cases har : t.name ∈ arithNames
+    · simp only [har, if_true, Except.ok.injEq] at hfin
+      subst hfin
+      have hall := arithNames_sub har
+      have hbin : typeOf D s.gamma (.paren (.bin "+" s.e (.lit 1))) = some { cls := t.name, lvl := 0, depth := 0 } := by
+        simp [typeOf, htyped, ctOf, hdepth, hall, cmpOps, arithOps, arithAll, promote_int har]
+      cases htr : t.tree with
+      | none =>
+        simp only [Term.treeType, htr, if_true]
+        simp [colOk, stripCast, hbin, isDeclaredValue, hall, Term.str, hconst, hdepth]
+      | some tt =>
+        have htt := htree tt htr
+        by_cases hn : tt = t.name
+        · simp only [Term.treeType, htr, hn, if_true]
+          simp [colOk, stripCast, hbin, isDeclaredValue, hall, Term.str, hconst, hdepth]
+        · simp only [Term.treeType, htr, hn, if_false]
+          have hc2 : typeOf D s.gamma (.cast tt (.paren (.bin "+" s.e (.lit 1)))) = some { cls := tt, lvl := 0, depth := 0 } := by
+            simp only [typeOf] at hbin ⊢
+            simp [hbin, hall, htt]
+          simp [colOk, stripCast, hbin, hc2, isDeclaredValue, htt, hn, Term.str, hconst, hdepth]
+    · simp [har] at hfin
+
+/-- **C10.column_eqConst_typed** — comparing a declared enum-typed value with a constant of that
+enum is well typed and gives a `bool` column. -/
+theorem column_eqConst_typed (D : Decls) (Γ0 : List (String × CT)) (s : ChainSt) (out : ColOut) (c : String)
+    (hinv : ChainInv D Γ0 s) (hfin : finishCol s (.eqConst c) = .ok out)
+    (hdepth : s.ty.term.depth = 0) (hen : D.enums.lookup c = some s.ty.term.name)
+    (hisen : D.isEnum s.ty.term.name = true) :
+    colOk D s.gamma out.decl out.isSeq out.rhs = true ∧
+    out.decl = (if out.isSeq then "std::vector<bool>" else "bool") := by
+  have htyped := hinv.typed
+  unfold finishCol at hfin
+  cases hty : s.ty with
+  | coll a b => simp [hty] at hfin
+  | value t =>
+    rw [hty] at htyped hdepth hen hisen
+    simp only [RTy.term] at htyped hdepth hen hisen
+    simp only [hty, Except.ok.injEq] at hfin
+    subst hfin
+    have hbin : typeOf D s.gamma (.paren (.bin "==" s.e (.qual c))) = some { cls := "bool", lvl := 0, depth := 0 } := by
+      simp [typeOf, htyped, ctOf, hdepth, hen, hisen, cmpOps]
+    have hb : ("bool" : String) ∈ arithAll := by decide
+    constructor
+    · simp [colOk, stripCast, hbin, isDeclaredValue, hb, Term.treeType, Term.str, starsS]
+      split <;> simp
+    · simp [Term.treeType, Term.str, starsS]
+      split <;> simp
+
+/-- **C10.deref_var_typed** — `dereference_var` leaves a non-pointer alone and otherwise prefixes one
+`*`, which in C++ has the type with one pointer level less (exactly one, whatever the depth). -/
+theorem deref_var_typed (D : Decls) (Γ : List (String × CT)) (e : CExpr) (t : Term)
+    (he : typeOf D Γ e = some (ctOf t)) :
+    (t.depth = 0 → derefVarText (render e) t = (render e, t)) ∧
+    (0 < t.depth → (derefVarText (render e) t).1 = render (.deref e) ∧
+      (derefVarText (render e) t).2 = { t with depth := t.depth - 1 } ∧
+      typeOf D Γ (.deref e) = some { cls := t.name, lvl := 0, depth := t.depth - 1 }) := by
+  constructor
+  · intro h; simp [derefVarText, h]
+  · intro h
+    have hne : t.depth ≠ 0 := by omega
+    refine ⟨by simp [derefVarText, hne, render], by simp [derefVarText, hne], ?_⟩
+    cases hd : t.depth with
+    | zero => omega
+    | succ d => simp [typeOf, he, ctOf, hd]
+
 /-- **C10.tree_type_pointer_counterexample** — a pointer-valued method with a `tree_type`
 (`double*` stored as `float`): the column is declared `float*` but the value is pushed through
 `static_cast<float>(…)`, which is ill typed. -/
@@ -447,6 +555,24 @@ theorem enum_qualified (st : NsState) (nsName : List Char) (name : Seg) (values 
       simp [resolveFrom, resolveStep, hshadow, he, hv]
     · unfold EnumOk
       rw [valueAsCpp_qualified e v (by rw [hens, hp]; simp) (by rw [hens]; exact splitDots_no_dot nsName) hdot, hens, hp]
+
+/-- **C10.enum_first_definition_wins** — defining an enum of the same name in the same namespace
+again changes nothing (the values of the first definition stay). -/
+theorem enum_first_definition_wins (st : NsState) (nsName : List Char) (name : Seg) (v1 v2 : List Seg) :
+    defineEnum (defineEnum st nsName name v1) nsName name v2 = defineEnum st nsName name v1 := by
+  obtain ⟨e, he, _⟩ := findEnum_defineEnum st nsName name v1
+  have hsame : (defineNs (defineEnum st nsName name v1) (splitDots nsName)) = defineEnum st nsName name v1 := by
+    have h1 : (defineEnum st nsName name v1).nss = (defineNs st (splitDots nsName)).nss := defineEnum_nss st nsName name v1
+    unfold defineNs
+    have : (prefixes (splitDots nsName)).foldl addNew (defineEnum st nsName name v1).nss = (defineEnum st nsName name v1).nss := by
+      apply foldl_addNew_id
+      intro a ha
+      rw [h1]
+      simp only [defineNs, mem_foldl_addNew]
+      exact Or.inr ha
+    rw [this]
+  conv => lhs; unfold defineEnum
+  simp only [hsame, he]
 
 /-- an enum value has no members: `.x` on it is refused (ValueError) -/
 theorem enum_dot_refused (st : NsState) (cpp ty : List Char) (a : Seg) :
